@@ -148,6 +148,23 @@ def run(chk, drv):
             want = sum((x & 0x7f) << (7 * j) for j, x in enumerate(b[:cont + 1])) % (1 << 64)
             if isinstance(r, Exception) or r != (want, b[:cont + 1]):
                 chk.fail("decode-wrong", b.hex(), repr(r))
+    # ---------------- decode_varint(buffer, pos) on the same arbitrary byte strings, at an offset
+    sample = bss if len(bss) < 120000 else bss[:66000] + chk.rng.sample(bss[66000:], 50000)
+    pre = b"\x7f\x80"
+    replies = drv.ask(["DECV %s %d" % ((pre + b).hex(), len(pre)) for b in sample]) if drv else None
+    for idx, b in enumerate(sample):
+        r = impl(betterproto.decode_varint, pre + b, len(pre))
+        l = impl(betterproto.load_varint, io.BytesIO(b))
+        chk.count("decode_varint_" + ("ok" if not isinstance(r, Exception) else type(r).__name__))
+        # the two decoders must classify every input alike (value, consumed count, kind of rejection)
+        same = (type(r) is type(l)) if isinstance(r, Exception) or isinstance(l, Exception) else r == (l[0], len(pre) + len(l[1]))
+        if not same:
+            chk.fail("decode_varint-differs-from-load_varint", b.hex(), "%r vs %r" % (r, l))
+        if replies:
+            m = replies[idx]
+            i = "ERR" if isinstance(r, Exception) else "%d %d" % r
+            if (m[:3] == "ERR") != (i == "ERR") or (i != "ERR" and m != i):
+                chk.disagree("decode_varint", b.hex(), m, i)
     # ---------------- zig-zag, sign recovery (model vs implementation through one-field messages)
     scalar_messages(chk, drv)
 
